@@ -36,6 +36,19 @@ def program_for(rng, tag):
             extra.append("(deep-%s %d)" % (tag, rng.randint(30, 45)))
         extra.append("(count-%s 60)" % tag)
         probes = probes + ["(count-%s 50)" % tag]
+    if rng.random() < 0.4:
+        # what the READER is given: directives and notations of R7RS that this reader does not know (each is a failing
+        # form here), and identifiers that differ only in case - reading a text must not depend on what another
+        # instance has read
+        for _ in range(rng.randint(1, 3)):
+            extra.insert(rng.randint(0, len(extra)), rng.choice([
+                "#!fold-case\n(define Limit-%s 10)" % tag, "#!no-fold-case\n(define limit-%s 11)" % tag, "#!fold-case", "#!eof",
+                "#;(hidden) 'after-datum-comment", "#|block|# 'after-block-comment", "#u8(1 2)", "#0=(a . #0#)", "#d10", "#x1F", "#e1.5",
+                "'#!fold-case", "(quote #!no-fold-case)"]))
+        extra.append("(define Total '%s-upper)" % tag)
+        extra.append("(define total '%s-lower)" % tag)
+        extra.append("(define (Scale x) (list x Total total))")
+        probes = probes + ["Total", "total", "(Scale 3)", "(list 'Abc 'abc 'ABC)", "(eqv? 'Total 'total)"]
     out = []
     # imports belong to the beginning of a program
     if rng.random() < 0.8:
@@ -146,7 +159,7 @@ def explore(ctx):
         "disagreements": ndis,
         "pairs_with_interference": leaks,
         "rule": "random program pairs A and B (core and derived forms with names drawn from a small shared pool, definitions, "
-                "assignments, vector mutation, failing forms, imports with prefixes, redefinition of car, and a library named "
+                "assignments, vector mutation, failing forms, reader directives and notations this reader does not know (#!fold-case, #;, #| |#, #u8, labels) with identifiers that differ only in case, imports with prefixes, redefinition of car, and a library named "
                 "(colliding) registered with a different source in each instance and mutated through its exports; in half of the pairs each "
                 "instance first runs a program file from a directory of its own, with a library file (flib) present in one, both "
                 "(different contents) or neither directory, imported again later), B's forms "
